@@ -39,7 +39,7 @@ TECHNIQUE = 'runtime monitoring: differential oracle (lazy run vs eager run of t
 
 
 def plan(tier, seed):
-    ndocs = 64 if tier == 'quick' else 2400
+    ndocs = 128 if tier == 'quick' else 2400
     shards = 16 if tier == 'quick' else 48
     specs = [{'kind': 'gen', 'docs': ndocs // shards, 'gshard': s} for s in range(shards)]
     specs.append({'kind': 'corpus'})
